@@ -60,6 +60,22 @@ def generate(tier, seed, work, stats):
         cases.append(dict(kind="unify", ha=a, hb=b, family="FSGen-pairs"))
     for h in hists[:: 4 if tier == "quick" else 1]:
         cases.append(dict(kind="unify", ha=h, hb=h, family="FSGen-self"))
+    # directed pairs in which an inner node of the receiver gets forwarded by the unification (nested values meeting a
+    # sharing of the other side, shared variables receiving a nested value, chains of unspecified values)
+    F = lambda *ops: [list(o) for o in ops]
+    dire = [
+        (F(("node", ["F"]), ("leaf", ["F", "NUM"], "sg"), ("node", ["G"]), ("leaf", ["G", "PER"], "3")),
+         F(("leaf", ["F"], "none"), ("share", ["G"], ["F"]))),
+        (F(("leaf", ["SUBJ"], "none"), ("share", ["OBJ"], ["SUBJ"])),
+         F(("node", ["SUBJ"]), ("leaf", ["SUBJ", "NUM"], "sg"))),
+        (F(("leaf", ["A"], "none"), ("share", ["B"], ["A"]), ("node", ["C"]), ("leaf", ["C", "N"], "pl")),
+         F(("leaf", ["A"], "none"), ("share", ["C"], ["A"]))),
+        (F(("node", ["H"]), ("node", ["H", "AGR"]), ("leaf", ["H", "AGR", "N"], "sg"), ("leaf", ["K"], "none")),
+         F(("leaf", ["K"], "none"), ("share", ["H"], ["K"]))),
+    ]
+    for a, b in dire:
+        cases.append(dict(kind="unify", ha=a, hb=b, family="directed-forwarded-inner-nodes"))
+        cases.append(dict(kind="unify", ha=b, hb=a, family="directed-forwarded-inner-nodes"))
     # feature grammars
     fams = [(2, 1, 2, 2, 8), (2, 2, 2, 1, 4)] if tier == "quick" else [(2, 1, 2, 2, 1), (2, 2, 2, 1, 1), (2, 1, 3, 2, 200)]
     for nv, nt, maxp, maxb, k in fams:
